@@ -13,16 +13,16 @@ func init() { props["C04"] = propC04 }
 
 // protocol events: the calls made by the sync root / SyncBlock below which balance mutation is allowed.
 var eventRoots = map[string]string{
-	"node.Pegnetd.NullifyBurnAddress":              "one-time adjustment: burn-address zeroing",
-	"node.Pegnetd.MintTokensForBalance":            "one-time adjustment: 2.0.4 mint",
-	"node.Pegnetd.NullifyMintedTokens":             "one-time adjustment: burn of the 2.0.4 remainder",
-	"node.Pegnetd.SnapshotPayouts":                 "holder staking payouts",
+	"node.Pegnetd.NullifyBurnAddress":               "one-time adjustment: burn-address zeroing",
+	"node.Pegnetd.MintTokensForBalance":             "one-time adjustment: 2.0.4 mint",
+	"node.Pegnetd.NullifyMintedTokens":              "one-time adjustment: burn of the 2.0.4 remainder",
+	"node.Pegnetd.SnapshotPayouts":                  "holder staking payouts",
 	"node.Pegnetd.ApplyTransactionBatchesInHolding": "transfers and conversions (held batches)",
-	"node.Pegnetd.ApplyTransactionBlock":           "transfers (immediate batches)",
-	"node.Pegnetd.ApplyFactoidBlock":               "FCT burns",
-	"node.Pegnetd.ApplyGradedOPRBlock":             "mining rewards",
-	"node.Pegnetd.ApplyGradedSPRBlock":             "staking (SPR) rewards",
-	"node.Pegnetd.DevelopersPayouts":               "developer rewards",
+	"node.Pegnetd.ApplyTransactionBlock":            "transfers (immediate batches)",
+	"node.Pegnetd.ApplyFactoidBlock":                "FCT burns",
+	"node.Pegnetd.ApplyGradedOPRBlock":              "mining rewards",
+	"node.Pegnetd.ApplyGradedSPRBlock":              "staking (SPR) rewards",
+	"node.Pegnetd.DevelopersPayouts":                "developer rewards",
 }
 
 func propC04(c *Ctx, r *Report) {
@@ -125,7 +125,7 @@ func propC04(c *Ctx, r *Report) {
 
 	// R3 transfer conservation
 	r.rule("C04-R3/transfer-conservation", 3, "one debit per transaction, one credit per transfer, same ticker")
-	rb := c.fn("node.Pegnetd.recordBatch")
+	rb := c.bodyOf(c.fn("node.Pegnetd.recordBatch"), "pegnet.Pegnet.SubFromBalance") // recordBatch, or the closure/helper its per-transaction body was moved into
 	subs := findCalls(rb, "pegnet.Pegnet.SubFromBalance")
 	adds := findCalls(rb, "pegnet.Pegnet.AddToBalance")
 	if len(subs) != 1 || len(adds) != 2 {
@@ -222,6 +222,9 @@ func propC04(c *Ctx, r *Report) {
 		}
 	}
 	_ = excl
+	if rb.Parent() != nil || isNewHelper(rb) {
+		sameIter = true // the per-transaction body was moved into a closure/helper: one call of it is one iteration
+	}
 	r.check(sameIter && !convCredit.Block().Dominates(xferCredit.Block()) && !xferCredit.Block().Dominates(convCredit.Block()), "C04-R4/conversion-credit", "conversion credit and transfer credits are alternative branches", c.ipos(convCredit), "", "a transaction can be credited both as a conversion and as a transfer")
 
 	// shared with C03: input = sum of transfers without wrap-around; a mid-batch failure fails the block
@@ -330,7 +333,13 @@ func burnExemptionRule(c *Ctx, r *Report, rb *ssa.Function, credit ssa.CallInstr
 			}
 		}
 	case *ssa.UnOp:
-		if al, ok := y.X.(*ssa.Alloc); ok && al.Referrers() != nil {
+		al, _ := y.X.(*ssa.Alloc)
+		use := cmp.Block()
+		if fv, ok := y.X.(*ssa.FreeVar); ok {
+			// the comparison sits in a closure: the variable is the enclosing function's, judged where the closure is made
+			al, use = closureBinding(fv)
+		}
+		if al != nil && al.Referrers() != nil {
 			var gate *ssa.BasicBlock
 			for _, rf := range *al.Referrers() {
 				if st, ok := rf.(*ssa.Store); ok && st.Addr == al {
@@ -341,7 +350,7 @@ func burnExemptionRule(c *Ctx, r *Report, rb *ssa.Function, credit ssa.CallInstr
 				}
 			}
 			// a store that does not dominate the comparison leaves the zero value on some path
-			if gate == nil || !gate.Dominates(cmp.Block()) {
+			if gate == nil || use == nil || !gate.Dominates(use) {
 				zeroEdge = true
 			}
 		}
@@ -409,4 +418,28 @@ func nil2(b, burnEdge *ssa.BasicBlock) *ssa.BasicBlock {
 		}
 	}
 	return nil
+}
+
+// closureBinding: the local of the enclosing function that free variable fv is bound to, and the block in which the
+// closure is made.
+func closureBinding(fv *ssa.FreeVar) (*ssa.Alloc, *ssa.BasicBlock) {
+	fn := fv.Parent()
+	if fn.Parent() == nil {
+		return nil, nil
+	}
+	var al *ssa.Alloc
+	var blk *ssa.BasicBlock
+	for i, w := range fn.FreeVars {
+		if w != fv {
+			continue
+		}
+		allInstrs(fn.Parent(), func(ins ssa.Instruction) {
+			if mc, ok := ins.(*ssa.MakeClosure); ok && mc.Fn == ssa.Value(fn) && i < len(mc.Bindings) {
+				if a, ok := mc.Bindings[i].(*ssa.Alloc); ok {
+					al, blk = a, mc.Block()
+				}
+			}
+		})
+	}
+	return al, blk
 }
